@@ -40,6 +40,12 @@ class Livelock(RuntimeError):
     """Callback cap exceeded."""
 
 
+class SyncHang(SystemExit):
+    """Raised from a watchdog signal when one synchronous stretch of code (no event-loop
+    iteration in between) runs for many seconds: an endless loop outside the loop's
+    reach.  Subclass of SystemExit so that asyncio passes it through."""
+
+
 class _Timer(events.TimerHandle):
     __slots__ = ("_tb",)
 
